@@ -245,7 +245,7 @@ def eval_pathsplit(case):
 EVALUATORS = {"proto": eval_proto, "format": eval_format, "addarg": eval_addarg, "pathsplit": eval_pathsplit}
 
 PROTOCOLS = ["http", "https", "ftp", "wss", "http:", "https://", "ftp:/", "gopher", "HTTP", "x", "a" * 64, "Zz" * 20 + "://"]
-PANEL_URLS = ["", "x", "example.com/p", "//example.com/p", "http://example.com", "HTTPS://Example.com/a?b#c", "ftp://h/p",
+PANEL_URLS = ["http://a.fr/r?to=http://b.fr", "https://web.archive.org/web/2020/https://x.com", "ftp://h/ftp://h/x", "//a.fr/?u=//b.fr", "", "x", "example.com/p", "//example.com/p", "http://example.com", "HTTPS://Example.com/a?b#c", "ftp://h/p",
               "://x", "a//b", "http:x", "http:/x", " http://x", "http://x ", "mailto:a@b.c", "wss://h:80/", "example.com//a",
               "/rel/path", "?q=http://y", "#f//g", "h" * 64 + "://x", "h" * 65 + "://x", "h" * 70 + "//x", "http//x", ":/x",
               "localhost:8080/p", "user:pw@host/p", "HtTp://x/http://y", "//", "http://", "x//", "é://x", "ht tp://x", "1http://x"]
